@@ -140,7 +140,39 @@ pub enum Edit {
     DupLine(u16),
     /// delete a balanced-ignorant range of tokens
     DeleteRange(u16, u8),
+    /// insert one of DIRECTIVE_LINES before a line
+    InsertLine(u16, u8),
 }
+
+/// Preprocessor and declaration lines with unusual diagnostics classes: fatal errors (missing
+/// include), plain errors, warnings, and lines clang accepts that stress the macro evaluator.
+pub const DIRECTIVE_LINES: &[&str] = &[
+    "#include \"bgv_no_such_file.h\"",
+    "#include <bgv_no_such_dir/none.h>",
+    "#error stop here",
+    "#warning just a warning",
+    "#pragma GCC error \"pragma error\"",
+    "#pragma GCC warning \"pragma warning\"",
+    "_Static_assert(0, \"never\");",
+    "#if 1",
+    "#endif",
+    "#define BGV_DIV (1/0)",
+    "#define BGV_REM (1%0)",
+    "#define BGV_SHIFT (1 << 200)",
+    "#define BGV_EMPTY",
+    "#define BGV_STR \"a\" \"b\"",
+    "#define BGV_FN(x) ((x)+1)",
+    "#pragma pack(push, 1)",
+    "#pragma pack(pop)",
+    "#pragma once",
+    "#line 7 \"elsewhere.h\"",
+    "#undef BGV_EMPTY",
+    "#include_next <bgv_none.h>",
+    "#pragma clang diagnostic ignored \"-Wall\"",
+    "__extension__ typedef __int128 bgv_i128;",
+    "typedef int bgv_vec4 __attribute__((vector_size(16)));",
+    ";",
+];
 
 const KEYWORDS: &[&str] = &[
     "struct", "union", "enum", "typedef", "const", "volatile", "static", "extern", "inline", "unsigned", "signed", "long", "short", "void", "int", "char", "float", "double", "class", "template", "typename", "namespace", "virtual", "public", "private", "operator", "using", "friend", "constexpr", "decltype", "auto", "sizeof", "_Bool", "_Complex", "__int128", "_Atomic", "restrict", "noexcept", "explicit", "mutable", "this", "nullptr", "bool", "wchar_t", "char16_t", "__attribute__", "alignas", "final", "override", "delete", "default",
@@ -231,6 +263,14 @@ pub fn apply(src: &str, edits: &[Edit], splice_src: Option<&str>) -> String {
                 let joined = lines.join("\n");
                 toks = lex(&joined);
             }
+            Edit::InsertLine(p, w) => {
+                let text = unlex(&toks);
+                let mut lines: Vec<&str> = text.split('\n').collect();
+                let l = idx(*p, lines.len().max(1)).min(lines.len());
+                lines.insert(l, DIRECTIVE_LINES[*w as usize % DIRECTIVE_LINES.len()]);
+                let joined = lines.join("\n");
+                toks = lex(&joined);
+            }
             Edit::DeleteRange(p, n) => {
                 let k = idx(*p, s.len());
                 let end = (k + (*n as usize % 12) + 1).min(s.len());
@@ -254,6 +294,7 @@ pub fn edit_strategy() -> BoxedStrategy<Edit> {
         1 => any::<u16>().prop_map(Edit::DeleteLine),
         1 => any::<u16>().prop_map(Edit::DupLine),
         1 => (any::<u16>(), any::<u8>()).prop_map(|(a, b)| Edit::DeleteRange(a, b)),
+        2 => (any::<u16>(), any::<u8>()).prop_map(|(a, b)| Edit::InsertLine(a, b)),
     ]
     .boxed()
 }
